@@ -426,6 +426,8 @@ func (m *Machine) resetPath() {
 	m.divMemo = nil
 	m.fmtOpaque = 0
 	m.timerRace = m.P.TimerRace
+	m.fixedClock = false
+	m.clockTick = 0
 	m.aborting = false
 	g0 := &G{id: 0, started: true, resume: make(chan struct{})}
 	m.gs = []*G{g0}
